@@ -5,8 +5,11 @@ from checks import futurelib as fl
 def run(ctx):
     rp = fl.build(ctx)
     wm = fl.waiter_mixes(3)
-    rkinds = [["val"], ["exc"], ["drop"], ["mdes"], ["dtor"], ["final"], ["val", "drop"]]
+    rkinds = [["val"], ["exc"], ["drop"], ["mdes"], ["dtor"], ["final"], ["val", "drop"], ["ovw"]]
     jobs = [(r, w) for r in rkinds for w in wm if len(r) + len(w) <= 4]
+    # another promise move-ASSIGNED over the pending one (kind "ovw", from a named source that lives on and is called afterwards):
+    # waiters of every kind parked on the overwritten future are released, with no-value, AT the assignment
+    ovw = [(["ovw"], ["co", "cb", "bl"]), (["ovw"], ["hv", "bl"]), (["ovw", "dtor"], ["cb", "co"])]
     if ctx.quick:
         ctx.exhaustive = False
         ctx.rng.shuffle(jobs)
@@ -16,12 +19,14 @@ def run(ctx):
         for i, w in enumerate(small):
             sel.append((rkinds[(i + ctx.seed) % 6], w))
         big = [j for j in jobs if len(j[1]) == 3][:8]
-        jobs = sel + big
+        jobs = sel + big + ovw
     fl.run_mixes(ctx, rp, jobs, max_paths=300 if ctx.quick else None)
     # futures that are already resolved when the waiters arrive, built by operator<< / result_of from a function that returned a
     # ready future (value, exception, dropped promise) or that threw: every kind of waiter must see "ready" and the result
-    for k, pre in enumerate(["exc_throw", "val", "drop", "exc"] if not ctx.quick else ["exc_throw", ["val", "drop", "exc"][ctx.seed % 3]]):
-        fl.run_mixes(ctx, rp, [([], ["co", "bl"]), ([], ["cb", "hv"])], max_paths=200 if ctx.quick else None, tagp="pre%d_" % k, pre=pre)
+    # (value / exception / no-value also through the static factories future<T>::set_value / set_exception / set_not_value)
+    pres = ["exc_throw", "val", "drop", "exc", "novalue"] if not ctx.quick else ["exc_throw", "novalue", ["val", "drop", "exc"][ctx.seed % 3]]
+    fl.run_jobs(ctx, [{"rp": rp, "r": [], "w": w, "tag": "pre%d_%d" % (k, i), "pre": pre, "max_paths": 200 if ctx.quick else None}
+                      for k, pre in enumerate(pres) for i, w in enumerate((["co", "bl"], ["cb", "hv"]))])
     # the same for the reference instantiation: future<int&>::set_value(lvalue) stores the address (state value_ref built ready)
     rpr = fl.build_ref(ctx)
     for k, pre in enumerate(["val", "exc", "drop"] if not ctx.quick else ["val"]):
